@@ -381,7 +381,22 @@ impl Node {
 
     /// Run one public operation, recording everything observable.
     pub fn call(&mut self, op: Op) -> CallRec {
-        assert!(!self.poisoned, "call on poisoned node");
+        if self.poisoned {
+            // the instance panicked earlier and must not be used any more: workloads stop at the first
+            // panic, this is the safety net for those that call once more
+            let o = self.last.clone();
+            return CallRec {
+                seq: self.seq,
+                op,
+                pre: o.clone(),
+                evs: vec![],
+                res: Res::Panic("(harness)".into(), "instance poisoned by an earlier panic".into()),
+                post: o,
+                hlog: vec![],
+                cfg_pre: self.cfg.clone(),
+                cfg_post: self.cfg.clone(),
+            };
+        }
         let pre = self.last.clone();
         let cfg_pre = self.cfg.clone();
         self.hlog.borrow_mut().clear();
